@@ -483,3 +483,23 @@ def run(index, rep, tier):
                             rep.check(guarded, "R10.13", fi.qualname, "`%s` folds None to the string 'none'" % norm(c), fn_where(fi, c), "%s: %s only for a label that is not None" % (fi.name, norm(c)),
                                       "%s folds `%s` with `%s` without excluding None: an unlabelled taxon's folded label is None (Taxon.lower_cased_label), so the query None becomes 'none', never matches the unlabelled member - get_taxon(None) is None, has_taxon_label(None) is False, every require_taxon(None) adds a new member - and does match a member whose label is the string 'None'" % (fi.qualname, x, norm(c)))
         rep.floor("R10.13", "str(x).lower() folds in the namespace code", 2, n13)
+
+    # ---- R10.14 bit positions are accession indices, not positions in the member list
+    with rep.section("R10.14"):
+        rep.rule("R10.14", "bit positions are accession indices, not positions in the member list: a loop of the namespace that turns bits into taxa through `_accession_index_taxon_map[<index>]` runs until the bitmask is exhausted - its bound does not involve the number of current members (`len(self._taxa)`, `len(self)`), which is smaller than the highest index in use as soon as a taxon was removed, so the taxa admitted last would be left out without an error")
+        n14 = 0
+        for fi in index.methods_of(TNS):
+            for lp in walk_no_nested(fi.node):
+                if not isinstance(lp, (ast.While, ast.For)):
+                    continue
+                subs = [x for x in ast.walk(lp) if isinstance(x, ast.Subscript) and isinstance(x.value, ast.Attribute) and x.value.attr == "_accession_index_taxon_map"]
+                if not subs:
+                    continue
+                n14 += 1
+                bound = lp.test if isinstance(lp, ast.While) else lp.iter
+                sized = {norm(st.targets[0]) for st in walk_no_nested(fi.node) if isinstance(st, ast.Assign) and len(st.targets) == 1 and isinstance(st.value, ast.Call) and call_name(st.value) == "len"
+                         and st.value.args and norm(st.value.args[0]) in ("self._taxa", "self")}
+                bad = [x for x in ast.walk(bound) if (isinstance(x, ast.Call) and call_name(x) == "len" and x.args and norm(x.args[0]) in ("self._taxa", "self")) or (isinstance(x, ast.Name) and x.id in sized)]
+                rep.check(not bad, "R10.14", fi.qualname, "bit walk bounded by the number of members", fn_where(fi, lp), "%s: the bit walk ends when the mask is exhausted" % fi.name,
+                          "%s walks the bits of a mask and looks each one up in `_accession_index_taxon_map`, but bounds the walk with `%s`: accession indices are never re-used, so after any removal the highest index in use exceeds the number of members and the taxa admitted last are silently dropped from the result (bitmask_taxa_list(taxa_bitmask(taxa=[d])) == [] for namespace [a,b,c,d] minus a)" % (fi.qualname, norm(bad[0]) if bad else ""))
+        rep.floor("R10.14", "bit walks over the accession map", 1, n14)
